@@ -106,6 +106,66 @@ fn nth_string(mut i: u64, maxlen: u32) -> Option<String> {
     Some(s.concat())
 }
 
+// ------------------------------------------------------------------ every finite number, by bit pattern
+/// One case = the 65 536 single-precision numbers whose upper 16 bits are `block` (non-negative finite numbers are the
+/// blocks 0..0x7f80). Each number n is printed as the version "nA" and parsed back. A number that does not come back is a
+/// violation only if some string parses to it (the property speaks of versions obtained by parsing): the witness tried is the
+/// number's exact decimal expansion.
+pub struct EveryNumber;
+impl Part for EveryNumber {
+    type Case = u32;
+    fn name(&self) -> &'static str {
+        "every-finite-number"
+    }
+    fn check(&self, block: &u32, ev: &mut Local) -> Result<(), Fail> {
+        let block = *block;
+        let bad: Result<Option<(u32, String, String)>, String> = guard(|| {
+            use std::fmt::Write;
+            let mut text = String::with_capacity(64);
+            for lo in 0..=0xffffu32 {
+                let bits = (block << 16) | lo;
+                let major = f32::from_bits(bits);
+                if !major.is_finite() {
+                    continue;
+                }
+                let v = GameVersion { major, minor: 'A', patch: None };
+                text.clear();
+                let _ = write!(text, "{v}");
+                match GameVersion::from_str(&text) {
+                    Ok(b) if b == v && b.major.to_bits() == bits => {},
+                    other => return Some((bits, text.clone(), format!("{other:?}"))),
+                }
+            }
+            None
+        });
+        match bad {
+            Err(p) => fail!("c16:parse-panic", "numbers with upper bits {block:#06x}: {p}"),
+            Ok(None) => {},
+            Ok(Some((bits, printed, got))) => {
+                let major = f32::from_bits(bits);
+                let exact = format!("{major:.160}A");
+                let reachable = matches!(parse(&exact), Ok(Ok(ref w)) if w.major.to_bits() == bits);
+                if reachable {
+                    fail!(
+                        "c16:print-reparse-differs",
+                        "{exact:?} parses to the number with bits {bits:#x}, whose version prints {printed:?}, which parses to {got}"
+                    );
+                }
+                ev.class("a number no string was found to parse to: not judged");
+            },
+        }
+        ev.nontrivial(&block);
+        ev.class(if block < 0x3f80 { "numbers below 1" } else { "numbers from 1" });
+        Ok(())
+    }
+    fn to_json(&self, c: &u32) -> Value {
+        json!({"upper_16_bits": c})
+    }
+    fn from_json(&self, v: &Value) -> Option<u32> {
+        Some(v.get("upper_16_bits")?.as_u64()? as u32)
+    }
+}
+
 pub struct AlphabetStrings;
 impl Part for AlphabetStrings {
     type Case = String;
@@ -423,6 +483,7 @@ impl Part for Triples {
 pub fn parts() -> Vec<Box<dyn DynPart>> {
     vec![
         Box::new(AlphabetStrings),
+        Box::new(EveryNumber),
         Box::new(RandomStrings),
         Box::new(WireForms),
         Box::new(Pairs),
@@ -433,7 +494,7 @@ pub fn parts() -> Vec<Box<dyn DynPart>> {
 pub fn run(run: &mut Run) {
     let maxlen = run.budget(6, 7) as u32;
     run.rule = format!(
-        "All strings of length <= {maxlen} over the alphabet {ALPHABET:?} (complete), random version-like / Unicode strings \
+        "All strings of length <= {maxlen} over the alphabet {ALPHABET:?} (complete), every non-negative finite single-precision number printed and parsed back (thorough tier: all 2.1e9 of them; quick tier: one block of 65 536 in every 32, chosen by the seed), random version-like / Unicode strings \
          (proptest), all 8-byte wire forms D.D[D]L[D[D]] sent through a VER frame (complete), all ordered pairs and sampled \
          triples from a pool of parsed versions for the order axioms. Oracles: no panic; finite => print/re-parse equal; \
          ASCII-lowercase and -uppercase spellings parse alike; cmp == reference lexicographic (number, letter, revision-or-0), \
@@ -442,6 +503,10 @@ pub fn run(run: &mut Run) {
     run.assumptions = vec!["reference order: f32 partial_cmp on the number, char order on the letter, usize order on revision-or-0".into()];
     let total: u64 = (0..=maxlen).map(|k| 10u64.pow(k)).sum();
     run.enumerate(&AlphabetStrings, total, true, |i| nth_string(i, maxlen));
+    // every non-negative finite number (thorough), or one block in 32 chosen by the seed (quick)
+    let stride = run.budget(32, 1);
+    let first = run.seed % stride;
+    run.enumerate(&EveryNumber, 0x7f80 / stride, stride == 1, move |i| Some((i * stride + first) as u32));
     let n = run.budget(300_000, 20_000_000);
     run.prop(&RandomStrings, random_strategy(), n);
     run.enumerate(&WireForms, 100, true, |i| Some(WireCase::Block(b'0' + (i / 10) as u8, b'0' + (i % 10) as u8)));
